@@ -209,7 +209,7 @@ var families = []Fam{
 					}
 					return end + float64(r.Range(1, 64))/16
 				}
-				return mu + float64(r.Range(-64, 64))/16
+				return mu + sigma*float64(r.Range(-64, 64))/16
 			}
 			switch {
 			case xi > 0:
